@@ -165,6 +165,20 @@ fn tables(text: &str) -> Tables {
 fn conversions(out: &mut Outcome, case: &Case, t: &Tables, chars: &[char], sub: (usize, usize), store: &AnnotationStore, knob: &Knob, phase: &str) {
     let resource = store.resource("r").expect("resource");
     let ctx = format!("text={:?} [{}] {}", case.text, knob.sig(), phase);
+    // ---- lengths
+    {
+        out.checks += 2;
+        let (len, empty) = (resource.textlen(), resource.is_empty());
+        if len != t.n || empty != (t.n == 0) {
+            out.fail("length", "resource", format!("{}: resource.textlen() = {}, is_empty() = {}, the text has {} codepoints", ctx, len, empty, t.n));
+        }
+        if let Ok(Ok(ts)) = catch(|| resource.textselection(&Offset::simple(sub.0, sub.1))) {
+            let (len, empty) = (ts.textlen(), ts.is_empty());
+            if len != sub.1 - sub.0 || empty != (sub.1 == sub.0) {
+                out.fail("length", "selection", format!("{}: selection {:?}: textlen() = {}, is_empty() = {}", ctx, sub, len, empty));
+            }
+        }
+    }
     // ---- resource
     for p in 0..=t.n + 2 {
         out.checks += 1;
